@@ -23,8 +23,8 @@ def r1(ctx):
     b = P.body(POOL + '::try_spawn::{closure#0}')
     push = one([s for s in b.calls(r'Vec::push$') if N(b.call_args(s)[0]) == 'self.current_sources'], 'current_sources.push')
     ctx.guard(b, push, 'below-count', BELOW, key='pool|push|below-count')
-    v = N(b.call_args(push)[1])
-    ctx.check('pool|push|value', v == 'PoolSource{id: id, addr: addr}', 'pushed `%s`' % v, push.where(), sample=v)
+    v = S(b.call_args(push)[1])
+    ctx.check('pool|push|value', v == 'PoolSource{id: ClockId::new(), addr: (Vec::pop(self.known_ips) as Some).0}', 'pushed `%s`' % v, push.where(), sample=v)
     ic = [x for _, x in ret_assigns(P.body(POOL + '::is_complete'))]
     ctx.check('pool|is_complete', ic == ['(Vec::len(self.current_sources) >= self.config.count)'], 'is_complete is %s' % ic, sample=ic)
     # the loop re-tests the bound before every push: the push block cannot reach itself without passing the test
